@@ -361,6 +361,6 @@ pub fn run(ctx: &mut Ctx) {
     }
     ctx.run(&mh, |c| format!("mix_history|{}|n={}", c.0.id, c.1), mix_history_case);
     ctx.extra("pure_records", json!(g1.len()));
-    ctx.rule = "E1 guess lattice: pure VLE with the equilibrium at T x {0.7,0.9,1.1,1.3} as initial state (T and p specification); bubble/dew points with tp_init in p* x {1/3,1/2,0.9,1.1,2,3} x molefracs_init in {none, true, true with x_1 scaled by 1/3 and 3, specified composition}; flashes with initial states from neighbouring p, T and from the bubble/dew point; H3 deviations: given-initial-state attempt / first stability start / ideal-gas start forced to fail. E2 history: PhaseDiagram::pure (n in {4,6,9}), binary_vle, bubble_point_line, dew_point_line (n in {5,6,8}) re-run with EVERY non-empty subset of their solver calls forced to fail (2^(n-1)-1 plans each): exactly the forced points go missing and every surviving point equals the undisturbed one; every undisturbed point equals the stand-alone solve without guess. E3 nested numbers of points n and 2n-1 share temperatures and points. Band 1e-7 relative in p, T, densities, absolute in mole fractions (1e-6 for flashes and mixture diagrams). distinct_nontrivial = distinct (system, guess / failure subset) keys".into();
+    ctx.rule = "E1 guess lattice: pure VLE with the equilibrium at T x {0.7,0.9,1.1,1.3} as initial state (T and p specification), two phases at the requested T and {0.8,0.95,1.05} p_sat, coarse-tolerance solutions {1e-3,1e-6} to be refined; bubble/dew points with tp_init in p* x {1/3,1/2,0.9,1.1,2,3} x molefracs_init in {none, true, true with x_1 scaled by 1/3 and 3, specified composition}; flashes with initial states from neighbouring p, T and from the bubble/dew point; H3 deviations: given-initial-state attempt / first stability start / ideal-gas start forced to fail. E2 history: PhaseDiagram::pure (n in {4,6,9}), binary_vle, bubble_point_line, dew_point_line (n in {5,6,8}) re-run with EVERY non-empty subset of their solver calls forced to fail (2^(n-1)-1 plans each): exactly the forced points go missing and every surviving point equals the undisturbed one; every undisturbed point equals the stand-alone solve without guess. E3 nested numbers of points n and 2n-1 share temperatures and points. Band 1e-7 relative in p, T, densities, absolute in mole fractions (1e-6 for flashes and mixture diagrams). distinct_nontrivial = distinct (system, guess / failure subset) keys".into();
     ctx.assume("vapor-liquid systems without liquid-liquid demixing (hydrocarbon pairs, Gross-Sadowski and SAFT-VR Mie pure records); guesses within a factor 3");
 }
